@@ -195,7 +195,13 @@ def set_matched_filter_phrases(tokens, text, terms, phrases):
     of Token indices (the matches set). The yield loop at the end uses this
     to properly set .matched on the yielded Token objects.
     """
-    text = text.split()
+    # Work on the analyzed tokens rather than on whitespace-separated pieces
+    # of the source text: the two only line up for the simplest texts. Stop
+    # words are present in the stream (marked as stopped) but were not
+    # indexed, so they do not count for phrase adjacency.
+    tokens = [t.copy() for t in tokens]
+    live = [i for i, t in enumerate(tokens) if not t.stopped]
+    text = [tokens[i].text for i in live]
     matches = set()
 
     # Match phrases
@@ -254,6 +260,7 @@ def set_matched_filter_phrases(tokens, text, terms, phrases):
                 matches.add(i)
                 break
 
+    matches = set(live[i] for i in matches)
     for i, t in enumerate(tokens):
         t.matched = i in matches
         yield t
